@@ -6,6 +6,8 @@ from .common import entry, variant_env, stored, where, arm_handler
 from .msgs import wasm_execute, coin_parts, vec_elems
 from .C10 import mk_pass, RGCFG, RGREG
 from .msgs import push_sequences, response_sequences
+from ..iters import item_source, base_of, droppers, nth_of, strip_coll
+from .hub_common import early_exits
 
 HUB = stored(RGCFG, "hub_contract")
 
@@ -194,12 +196,22 @@ def run(prog, world, sem, rep):
         amt = world.ident(d["amount"], expand_ws=False)
         same_item = dst.op == "field" and amt.op == "field" and dst.info[0] == "0" and amt.info[0] == "1" and dst.args[0] == amt.args[0]
         rep.ob("C13.e", "Redelegate.dst_validator / amount are the two components of one entry", same_item, "dst %s amount %s" % (show(dst, 3), show(amt, 3)), where(v.body, bb))
-        # the closure is mapped over msg.redelegations
-        par = v.parent[0] if v.parent else None
+        # the entry walks msg.redelegations (closure of a map, or a `for` loop), and no entry is skipped
         okm = False
-        if par is not None:
-            maps = [ee for (_, _, ee) in call_sites(sem, [par], lambda k: k.endswith("Iterator::map"))]
-            for m in maps:
-                src = sem.label(m.args[0])
-                okm = okm or (src is not None and src[0] == "param" and src[4] == ("redelegations",))
-        rep.ob("C13.e", "one Redelegate per entry of msg.redelegations", okm, "mapped over msg.redelegations: %s" % okm, where(v.body, bb))
+        why = "dst / amount are not components of an iteration item"
+        if same_item:
+            src = item_source(world, dst.args[0])
+            base = base_of(world, src) if src is not None else None
+            bl = sem.label(v.resolve(base)) if base is not None else None
+            okm = bl is not None and bl[0] == "param" and bl[4] == ("redelegations",)
+            why = "entries of %s" % (bl,)
+            if okm:
+                if v.body.kind == "closure":
+                    dr = droppers(world, src)
+                    okm = not dr
+                    why += "; adaptors dropping entries: %s" % [d0[0] for d0 in dr]
+                else:
+                    ee = early_exits(sem, v, bb)
+                    okm = ee == []
+                    why += "; early exits %s" % (ee,)
+        rep.ob("C13.e", "one Redelegate per entry of msg.redelegations", okm, why, where(v.body, bb))
